@@ -12,36 +12,50 @@
     Control flow: straight-line code and backward conditional jumps to labels,
     executed with fuel. *)
 From Coq Require Import ZArith List String Bool Lia.
+From Coq Require Import ZifyBool.
 From WebpGen Require Import AsmAmd64.
+From Webp Require Import Base.Res Arch.ArchLane16 Arch.ArchLane16Proofs.
 Import ListNotations.
 Open Scope Z_scope.
 Open Scope bool_scope.
 
-(** ** lane arithmetic (kept folded during symbolic execution) *)
-Definition mkw (lo hi : Z) : Z := lo + 256 * hi.                       (* two bytes -> unsigned word *)
-Definition sub16u (a b : Z) : Z := (a - b) mod 65536.                   (* PSUBW on unsigned word values *)
-Definition sx16 (w : Z) : Z := if w <? 32768 then w else w - 65536.     (* signed reading of a word *)
-Definition madd32 (a0 b0 a1 b1 : Z) : Z := (sx16 a0 * sx16 b0 + sx16 a1 * sx16 b1) mod 4294967296.  (* PMADDWD lane *)
-Definition add32 (a b : Z) : Z := (a + b) mod 4294967296.               (* PADDD lane *)
+(** ** lane arithmetic
+    The interpreter is parameterised by the lane operations (section variables):
+    symbolic execution - [vm_compute], re-run by the kernel's VM at Qed - treats
+    them as atoms.  The theorems are proved from the defining equations of the
+    operations (section hypotheses) and instantiated with the real operations at
+    the end ([run_real]). *)
+Definition sx16 (w : Z) : Z := if w <? 32768 then w else w - 65536.         (* signed reading of a word *)
+Definition mkw_def (lo hi : Z) : Z := lo + 256 * hi.                       (* two bytes -> unsigned word *)
+Definition sub16u_def (a b : Z) : Z := (a - b) mod 65536.                   (* PSUBW on unsigned word values *)
+Definition madd32_def (a0 b0 a1 b1 : Z) : Z := (sx16 a0 * sx16 b0 + sx16 a1 * sx16 b1) mod 4294967296.  (* PMADDWD lane *)
+Definition add32_def (a b : Z) : Z := (a + b) mod 4294967296.               (* PADDD lane *)
 
-Inductive vec : Type := VB (bytes : list Z) | VW (ws : list Z) | VD (ds : list Z).
+Section Sem.
+Variable mkw : Z -> Z -> Z.
+Variable sub16u : Z -> Z -> Z.
+Variable madd32 : Z -> Z -> Z -> Z -> Z.
+Variable add32 : Z -> Z -> Z.
+(* signed 16-bit lanes (word kernels): PADDW / PSUBW / PSRAW / PMULHW / PACKUSWB lane *)
+Variable add16v : Z -> Z -> Z.
+Variable sub16v : Z -> Z -> Z.
+Variable sra16v : Z -> Z -> Z.
+Variable mulhi16v : Z -> Z -> Z.
+Variable packus8v : Z -> Z.
+
+Inductive vec : Type := VB (bytes : list Z) | VW (ws : list Z) | VD (ds : list Z)
+  | VS (ss : list Z).   (* eight signed 16-bit lanes (registers of the word kernels) *)
 
 Definition bytes_of_word (w : Z) : list Z := [w mod 256; (w / 256) mod 256].
 Definition bytes_of_dword (d : Z) : list Z := [d mod 256; (d / 256) mod 256; (d / 65536) mod 256; (d / 16777216) mod 256].
 Definition bytes_of (v : vec) : list Z :=
-  match v with VB b => b | VW ws => flat_map bytes_of_word ws | VD ds => flat_map bytes_of_dword ds end.
+  match v with VB b => b | VW ws => flat_map bytes_of_word ws | VD ds => flat_map bytes_of_dword ds
+  | VS ss => flat_map (fun w => bytes_of_word (w mod 65536)) ss end.
 Fixpoint words_of_bytes (b : list Z) : list Z :=
   match b with lo :: hi :: t => mkw lo hi :: words_of_bytes t | _ => [] end.
 Definition as_words (v : vec) : option (list Z) :=
-  match v with VB b => Some (words_of_bytes b) | VW ws => Some ws | VD _ => None end.
+  match v with VB b => Some (words_of_bytes b) | VW ws => Some ws | VD _ => None | VS _ => None end.
 Definition as_dwords (v : vec) : option (list Z) := match v with VD ds => Some ds | _ => None end.
-
-Lemma as_words_bytes ws : Forall (fun w => 0 <= w < 65536) ws -> words_of_bytes (bytes_of (VW ws)) = ws.
-Proof.
-  induction 1 as [|w ws Hw _ IH]; [reflexivity|]. cbn [bytes_of flat_map bytes_of_word app words_of_bytes] in *.
-  rewrite IH. f_equal. unfold mkw. pose proof (Z.div_mod w 256). rewrite (Z.mod_small (w / 256)); [lia|].
-  split; [apply Z.div_pos; lia|apply Z.div_lt_upper_bound; lia].
-Qed.
 
 (** ** machine state *)
 Inductive gval : Type := GInt (n : Z) | GPtr (buf : string) (off : Z).
@@ -49,7 +63,11 @@ Inductive gval : Type := GInt (n : Z) | GPtr (buf : string) (off : Z).
 Record state : Type := {
   gpr : list (string * gval);
   xmm : list (string * vec);
-  mem : string -> Z -> Z;            (* buffer -> offset -> byte *)
+  mem : string -> Z -> Z;            (* byte buffers: buffer -> offset -> byte *)
+  memw : string -> Z -> Z;           (* int16 buffers: buffer -> element index -> signed value *)
+  wbufs : list string;               (* which buffers are int16 buffers *)
+  wst : list (string * Z * Z);       (* words stored by the routine: (buffer, element index, value), newest first *)
+  bst : list (string * Z * Z);       (* bytes stored by the routine *)
   args : list (string * gval);       (* FP frame: arguments *)
   retv : option Z;                   (* FP frame: result *)
   zf : bool
@@ -58,10 +76,20 @@ Record state : Type := {
 Fixpoint lookup {A} (k : string) (l : list (string * A)) : option A :=
   match l with [] => None | (k', v) :: t => if String.eqb k k' then Some v else lookup k t end.
 
-Definition set_gpr (s : state) r v := {| gpr := (r, v) :: gpr s; xmm := xmm s; mem := mem s; args := args s; retv := retv s; zf := zf s |}.
-Definition set_xmm (s : state) r v := {| gpr := gpr s; xmm := (r, v) :: xmm s; mem := mem s; args := args s; retv := retv s; zf := zf s |}.
-Definition set_ret (s : state) v := {| gpr := gpr s; xmm := xmm s; mem := mem s; args := args s; retv := Some v; zf := zf s |}.
-Definition set_zf (s : state) b := {| gpr := gpr s; xmm := xmm s; mem := mem s; args := args s; retv := retv s; zf := b |}.
+Definition upd (s : state) g x w b r z :=
+  {| gpr := g; xmm := x; mem := mem s; memw := memw s; wbufs := wbufs s; wst := w; bst := b; args := args s; retv := r; zf := z |}.
+Definition set_gpr (s : state) r v := upd s ((r, v) :: gpr s) (xmm s) (wst s) (bst s) (retv s) (zf s).
+Definition set_xmm (s : state) r v := upd s (gpr s) ((r, v) :: xmm s) (wst s) (bst s) (retv s) (zf s).
+Definition set_ret (s : state) v := upd s (gpr s) (xmm s) (wst s) (bst s) (Some v) (zf s).
+Definition set_zf (s : state) b := upd s (gpr s) (xmm s) (wst s) (bst s) (retv s) b.
+Definition store_w (s : state) buf i v := upd s (gpr s) (xmm s) ((buf, i, v) :: wst s) (bst s) (retv s) (zf s).
+Definition store_b (s : state) buf i v := upd s (gpr s) (xmm s) (wst s) ((buf, i, v) :: bst s) (retv s) (zf s).
+
+Fixpoint stored (l : list (string * Z * Z)) (buf : string) (i : Z) : option Z :=
+  match l with
+  | [] => None
+  | (b, j, v) :: t => if String.eqb b buf && Z.eqb i j then Some v else stored t buf i
+  end.
 
 Definition is_xmm (r : string) : bool := String.prefix "X" r.
 
@@ -96,6 +124,19 @@ Definition shufd (imm : Z) (ds : list Z) : list Z :=
 
 (** one instruction; [None] = not covered by this semantics (the proofs below
     show the claimed routines never get there) *)
+Definition is_wbuf (s : state) (b : string) : bool := existsb (String.eqb b) (wbufs s).
+Definition loadw (s : state) (b : string) (o : Z) (n : nat) : list Z :=
+  map (fun k => memw s b (o / 2 + Z.of_nat k)) (seq 0 n).
+(* the four signed words of a 64-bit immediate *)
+Definition sw (x : Z) : Z := let u := x mod 65536 in if u <? 32768 then u else u - 65536.
+Definition words_of_imm (n : Z) : list Z := [sw n; sw (n / 65536); sw (n / 4294967296); sw (n / 281474976710656)].
+Definition shufd_w (imm : Z) (ws : list Z) : list Z :=
+  flat_map (fun i => let k := Z.to_nat ((imm / 4 ^ i) mod 4) in [nth (2 * k) ws 0; nth (2 * k + 1) ws 0]) [0; 1; 2; 3].
+Fixpoint store_bytes (s : state) (b : string) (o : Z) (l : list Z) : state :=
+  match l with [] => s | x :: t => store_bytes (store_b s b o x) b (o + 1) t end.
+Fixpoint store_words (s : state) (b : string) (i : Z) (l : list Z) : state :=
+  match l with [] => s | x :: t => store_words (store_w s b i x) b (i + 1) t end.
+
 Definition is (m k : string) : bool := String.eqb m k.
 
 Definition step (s : state) (m : string) (ops : list opnd) : option state :=
@@ -106,7 +147,119 @@ Definition step (s : state) (m : string) (ops : list opnd) : option state :=
     | [R r; FP f _] =>
       if is f "ret" then match lookup r (gpr s) with Some (GInt n) => Some (set_ret s n) | _ => None end else None
     | [Mem d b i sc; R x] =>
-      if is_xmm x then option_map (fun a => set_xmm s x (VB (load s (fst a) (snd a) 8 ++ zeros 8))) (addr s d b i sc) else None
+      if is_xmm x then
+        option_map (fun a => if is_wbuf s (fst a)
+                             then set_xmm s x (VS (loadw s (fst a) (snd a) 4 ++ zeros 4))
+                             else set_xmm s x (VB (load s (fst a) (snd a) 8 ++ zeros 8))) (addr s d b i sc)
+      else None
+    | [R a; R b] =>
+      (* general register -> low 64 bits of an XMM register (upper half zero) *)
+      if is_xmm b && negb (is_xmm a) then
+        match lookup a (gpr s) with Some (GInt n) => Some (set_xmm s b (VS (words_of_imm n ++ zeros 4))) | _ => None end
+      else None
+    | [R x; Mem d b i sc] =>
+      (* low 64 bits of a word register -> int16 buffer *)
+      if is_xmm x then
+        match lookup x (xmm s), addr s d b i sc with
+        | Some (VS ws), Some a => if is_wbuf s (fst a) then Some (store_words s (fst a) (snd a / 2) (firstn 4 ws)) else None
+        | _, _ => None
+        end
+      else None
+    | _ => None
+    end
+  else if is m "MOVOU" then
+    match ops with
+    | [Mem d b i sc; R x] =>
+      match addr s d b i sc with
+      | Some a => if is_wbuf s (fst a) then Some (set_xmm s x (VS (loadw s (fst a) (snd a) 8))) else None
+      | None => None
+      end
+    | _ => None
+    end
+  else if is m "MOVO" then
+    match ops with
+    | [R a; R b] => option_map (set_xmm s b) (lookup a (xmm s))
+    | _ => None
+    end
+  else if is m "MOVW" then
+    match ops with
+    | [R r; Mem d b i sc] =>
+      match lookup r (gpr s), addr s d b i sc with
+      | Some (GInt v), Some a => if is_wbuf s (fst a) then Some (store_w s (fst a) (snd a / 2) v) else None
+      | _, _ => None
+      end
+    | _ => None
+    end
+  else if is m "PEXTRW" then
+    match ops with
+    | [Imm n; R x; R r] =>
+      match lookup x (xmm s) with
+      | Some (VS ws) => Some (set_gpr s r (GInt (nth (Z.to_nat n) ws 0)))
+      | _ => None
+      end
+    | _ => None
+    end
+  else if is m "PADDW" then
+    match ops with
+    | [R a; R b] =>
+      match lookup a (xmm s), lookup b (xmm s) with
+      | Some (VS wa), Some (VS wb) => Some (set_xmm s b (VS (map2o add16v wb wa)))
+      | _, _ => None
+      end
+    | _ => None
+    end
+  else if is m "PSRAW" then
+    match ops with
+    | [Imm n; R b] =>
+      match lookup b (xmm s) with
+      | Some (VS wb) => Some (set_xmm s b (VS (map (fun w => sra16v w n) wb)))
+      | _ => None
+      end
+    | _ => None
+    end
+  else if is m "PMULHW" then
+    match ops with
+    | [R a; R b] =>
+      match lookup a (xmm s), lookup b (xmm s) with
+      | Some (VS wa), Some (VS wb) => Some (set_xmm s b (VS (map2o mulhi16v wb wa)))
+      | _, _ => None
+      end
+    | _ => None
+    end
+  else if is m "PUNPCKLWL" then
+    match ops with
+    | [R a; R b] =>
+      match lookup a (xmm s), lookup b (xmm s) with
+      | Some (VS wa), Some (VS wb) => Some (set_xmm s b (VS (interleave (firstn 4 wb) (firstn 4 wa))))
+      | _, _ => None
+      end
+    | _ => None
+    end
+  else if is m "MOVLHPS" then
+    match ops with
+    | [R a; R b] =>
+      match lookup a (xmm s), lookup b (xmm s) with
+      | Some (VS wa), Some (VS wb) => Some (set_xmm s b (VS (firstn 4 wb ++ firstn 4 wa)))
+      | _, _ => None
+      end
+    | _ => None
+    end
+  else if is m "MOVHLPS" then
+    match ops with
+    | [R a; R b] =>
+      match lookup a (xmm s), lookup b (xmm s) with
+      | Some (VS wa), Some (VS wb) => Some (set_xmm s b (VS (skipn 4 wa ++ skipn 4 wb)))
+      | _, _ => None
+      end
+    | _ => None
+    end
+  else if is m "PACKUSWB" then
+    match ops with
+    | [R a; R b] =>
+      match lookup a (xmm s), lookup b (xmm s) with
+      | Some (VS wa), Some (VS wb) => Some (set_xmm s b (VB (map packus8v wb ++ map packus8v wa)))
+      | _, _ => None
+      end
     | _ => None
     end
   else if is m "MOVL" then
@@ -118,6 +271,13 @@ Definition step (s : state) (m : string) (ops : list opnd) : option state :=
         match lookup x (xmm s) with
         | Some v => match as_dwords v with Some (d0 :: _) => Some (set_gpr s r (GInt d0)) | _ => None end
         | None => None
+        end
+      else None
+    | [R x; Mem d b i sc] =>
+      if is_xmm x then
+        match lookup x (xmm s), addr s d b i sc with
+        | Some (VB bs), Some a => if is_wbuf s (fst a) then None else Some (store_bytes s (fst a) (snd a) (firstn 4 bs))
+        | _, _ => None
         end
       else None
     | _ => None
@@ -136,7 +296,11 @@ Definition step (s : state) (m : string) (ops : list opnd) : option state :=
     match ops with
     | [R a; R b] =>
       match lookup a (xmm s), lookup b (xmm s) with
-      | Some (VB sa), Some (VB sb) => Some (set_xmm s b (VB (interleave (firstn 8 sb) (firstn 8 sa))))
+      | Some (VB sa), Some (VB sb) =>
+        if is_wbuf s "in" && forallb (Z.eqb 0) sa then
+          (* word kernels: unpacking against a zero register zero-extends the low eight bytes to words *)
+          Some (set_xmm s b (VS (firstn 8 sb)))
+        else Some (set_xmm s b (VB (interleave (firstn 8 sb) (firstn 8 sa))))
       | _, _ => None
       end
     | _ => None
@@ -145,6 +309,7 @@ Definition step (s : state) (m : string) (ops : list opnd) : option state :=
     match ops with
     | [R a; R b] =>
       match lookup a (xmm s), lookup b (xmm s) with
+      | Some (VS wa), Some (VS wb) => Some (set_xmm s b (VS (map2o sub16v wb wa)))
       | Some va, Some vb =>
         match as_words va, as_words vb with
         | Some wa, Some wb => Some (set_xmm s b (VW (map2o sub16u wb wa)))
@@ -184,6 +349,7 @@ Definition step (s : state) (m : string) (ops : list opnd) : option state :=
     | [Imm n; R a; R b] =>
       match lookup a (xmm s) with
       | Some (VD da) => Some (set_xmm s b (VD (shufd n da)))
+      | Some (VS wa) => Some (set_xmm s b (VS (shufd_w n wa)))
       | _ => None
       end
     | _ => None
@@ -207,6 +373,73 @@ Definition step (s : state) (m : string) (ops : list opnd) : option state :=
       end
     | _ => None
     end
+  (* VEX three-operand forms on 128-bit registers (Go order: second source, first source,
+     destination): the destination is written, the sources are not modified *)
+  else if is m "VPADDW" || is m "VPSUBW" || is m "VPMULHW" then
+    match ops with
+    | [R a; R b; R d] =>
+      match lookup a (xmm s), lookup b (xmm s) with
+      | Some (VS wa), Some (VS wb) =>
+        Some (set_xmm s d (VS (map2o (if is m "VPADDW" then add16v else if is m "VPSUBW" then sub16v else mulhi16v) wb wa)))
+      | _, _ => None
+      end
+    | _ => None
+    end
+  else if is m "VPSRAW" then
+    match ops with
+    | [Imm n; R a; R d] =>
+      match lookup a (xmm s) with
+      | Some (VS wa) => Some (set_xmm s d (VS (map (fun w => sra16v w n) wa)))
+      | _ => None
+      end
+    | _ => None
+    end
+  else if is m "VPSHUFD" then
+    match ops with
+    | [Imm n; R a; R d] =>
+      match lookup a (xmm s) with
+      | Some (VS wa) => Some (set_xmm s d (VS (shufd_w n wa)))
+      | _ => None
+      end
+    | _ => None
+    end
+  else if is m "VPUNPCKLWD" || is m "VPUNPCKLQDQ" || is m "VPUNPCKHQDQ" then
+    match ops with
+    | [R a; R b; R d] =>
+      match lookup a (xmm s), lookup b (xmm s) with
+      | Some (VS wa), Some (VS wb) =>
+        Some (set_xmm s d (VS (if is m "VPUNPCKLWD" then interleave (firstn 4 wb) (firstn 4 wa)
+                               else if is m "VPUNPCKLQDQ" then firstn 4 wb ++ firstn 4 wa
+                               else skipn 4 wb ++ skipn 4 wa)))
+      | _, _ => None
+      end
+    | _ => None
+    end
+  else if is m "VPXOR" then
+    match ops with
+    | [R a; R b; R d] => if String.eqb a b then Some (set_xmm s d (VB (zeros 16))) else None
+    | _ => None
+    end
+  else if is m "VPUNPCKLBW" then
+    match ops with
+    | [R a; R b; R d] =>
+      match lookup a (xmm s), lookup b (xmm s) with
+      | Some (VB sa), Some (VB sb) =>
+        if forallb (Z.eqb 0) sa then Some (set_xmm s d (VS (firstn 8 sb))) else None
+      | _, _ => None
+      end
+    | _ => None
+    end
+  else if is m "VPACKUSWB" then
+    match ops with
+    | [R a; R b; R d] =>
+      match lookup a (xmm s), lookup b (xmm s) with
+      | Some (VS wa), Some (VS wb) => Some (set_xmm s d (VB (map packus8v wb ++ map packus8v wa)))
+      | _, _ => None
+      end
+    | _ => None
+    end
+  else if is m "VZEROUPPER" then Some s   (* only 128-bit registers are modelled: the upper halves are never read *)
   else None.
 
 Fixpoint find_label (l : string) (prog : list item) (pos : nat) : option nat :=
@@ -218,33 +451,51 @@ Fixpoint find_label (l : string) (prog : list item) (pos : nat) : option nat :=
 
 (** run from program counter [pc]; result: the value stored to ret+..(FP) when
     RET is reached *)
-Fixpoint run (fuel : nat) (prog : list item) (pc : nat) (s : state) : option Z :=
+Fixpoint run_st (fuel : nat) (prog : list item) (pc : nat) (s : state) : option state :=
   match fuel with
   | O => None
   | S fuel' =>
     match nth_error prog pc with
     | None => None
-    | Some (L _) => run fuel' prog (S pc) s
+    | Some (L _) => run_st fuel' prog (S pc) s
     | Some (I m ops) =>
-      if is m "RET" then retv s
+      if is m "RET" then Some s
       else if is m "JNZ" then
         match ops with
         | [Sym l _] =>
-          if zf s then run fuel' prog (S pc) s
-          else match find_label l prog 0 with Some p => run fuel' prog p s | None => None end
+          if zf s then run_st fuel' prog (S pc) s
+          else match find_label l prog 0 with Some p => run_st fuel' prog p s | None => None end
         | _ => None
         end
-      else match step s m ops with Some s' => run fuel' prog (S pc) s' | None => None end
+      else match step s m ops with Some s' => run_st fuel' prog (S pc) s' | None => None end
     end
   end.
 
+Definition run (fuel : nat) (prog : list item) (pc : nat) (s : state) : option Z :=
+  match run_st fuel prog pc s with Some s' => retv s' | None => None end.
+
 Definition init_state (m : string -> Z -> Z) : state :=
-  {| gpr := []; xmm := []; mem := m;
+  {| gpr := []; xmm := []; mem := m; memw := fun _ _ => 0; wbufs := []; wst := []; bst := [];
      args := [("pix_base", GPtr "pix" 0); ("ref_base", GPtr "ref" 0)]; retv := None; zf := false |}.
 
+(** word kernels: int16 buffers "in" / "out", byte buffers "ref" / "dst" *)
+Definition init_state_w (m mw : string -> Z -> Z) (a : list (string * gval)) : state :=
+  {| gpr := []; xmm := []; mem := m; memw := mw; wbufs := ["in"; "out"]; wst := []; bst := [];
+     args := a; retv := None; zf := false |}.
+
+Hypothesis mkw_eq : forall lo hi, mkw lo hi = lo + 256 * hi.
+Hypothesis sub16u_eq : forall a b, sub16u a b = (a - b) mod 65536.
+Hypothesis madd32_eq : forall a0 b0 a1 b1, madd32 a0 b0 a1 b1 = (sx16 a0 * sx16 b0 + sx16 a1 * sx16 b1) mod 4294967296.
+Hypothesis add32_eq : forall a b, add32 a b = (a + b) mod 4294967296.
+
+Lemma as_words_bytes ws : Forall (fun w => 0 <= w < 65536) ws -> words_of_bytes (bytes_of (VW ws)) = ws.
+Proof.
+  induction 1 as [|w ws Hw _ IH]; [reflexivity|]. cbn [bytes_of flat_map bytes_of_word app words_of_bytes] in *.
+  rewrite IH. f_equal. rewrite mkw_eq. pose proof (Z.div_mod w 256). rewrite (Z.mod_small (w / 256)); [lia|].
+  split; [apply Z.div_pos; lia|apply Z.div_lt_upper_bound; lia].
+Qed.
+
 (** ** sse4x4SSE2: the interpreted assembly equals the lane model *)
-From Coq Require Import ZifyBool.
-From Webp Require Import Base.Res Arch.ArchLane16 Arch.ArchLane16Proofs.
 
 Definition sq (p r : Z) : Z := (p - r) * (p - r).
 
@@ -257,7 +508,7 @@ Qed.
 
 Lemma sx16_sub p r : 0 <= p <= 255 -> 0 <= r <= 255 -> sx16 (sub16u (mkw p 0) (mkw r 0)) = p - r.
 Proof.
-  intros Hp Hr. unfold sx16, sub16u, mkw. rewrite !Z.mul_0_r, !Z.add_0_r.
+  intros Hp Hr. rewrite sub16u_eq, !mkw_eq. unfold sx16. rewrite !Z.mul_0_r, !Z.add_0_r.
   destruct (Z.le_gt_cases r p) as [H|H].
   - rewrite Z.mod_small by lia. destruct (Z.ltb_spec (p - r) 32768); lia.
   - replace ((p - r) mod 65536) with (p - r + 65536).
@@ -270,52 +521,291 @@ Lemma madd32_sq p0 r0 p1 r1 :
   madd32 (sub16u (mkw p0 0) (mkw r0 0)) (sub16u (mkw p0 0) (mkw r0 0))
          (sub16u (mkw p1 0) (mkw r1 0)) (sub16u (mkw p1 0) (mkw r1 0)) = sq p0 r0 + sq p1 r1.
 Proof.
-  intros. unfold madd32. rewrite !sx16_sub by assumption. fold (sq p0 r0) (sq p1 r1).
+  intros. rewrite madd32_eq. rewrite !sx16_sub by assumption. fold (sq p0 r0) (sq p1 r1).
   pose proof (sq_bound p0 r0 ltac:(assumption) ltac:(assumption)).
   pose proof (sq_bound p1 r1 ltac:(assumption) ltac:(assumption)).
   apply Z.mod_small. lia.
 Qed.
 
-Lemma madd32_zero : madd32 (sub16u (mkw 0 0) (mkw 0 0)) (sub16u (mkw 0 0) (mkw 0 0))
-                           (sub16u (mkw 0 0) (mkw 0 0)) (sub16u (mkw 0 0) (mkw 0 0)) = 0.
-Proof. reflexivity. Qed.
-
 Lemma add32_small a b : 0 <= a -> 0 <= b -> a + b < 4294967296 -> add32 a b = a + b.
-Proof. intros. unfold add32. apply Z.mod_small. lia. Qed.
+Proof. intros. rewrite add32_eq. apply Z.mod_small. lia. Qed.
 
 (** the 4x4 block of a buffer at stride 32, in raster order *)
 Definition block4 (m : string -> Z -> Z) (b : string) : list Z :=
   flat_map (fun row => map (fun col => m b (32 * row + col)) [0; 1; 2; 3]) [0; 1; 2; 3].
 
-Theorem asm_sse4x4_eq_model : forall m, (forall b o, 0 <= m b o <= 255) ->
-  run 100 asm_sse4x4SSE2 0 (init_state m) = Some (l_sse_list (block4 m "pix") (block4 m "ref")).
-Proof.
-  intros m Hm.
-  rewrite lane16_sse_eq.
-  2,3: (unfold block4; cbn [flat_map map app]; repeat (apply Forall_cons; [apply Hm|]); apply Forall_nil).
-  2: (unfold block4; cbn; lia).
-  cbv -[mkw sub16u madd32 add32 sse_list block4].
-  rewrite !madd32_zero. rewrite !madd32_sq by apply Hm.
-  unfold sse_list, block4. cbn [flat_map map app combine fold_right fst snd Z.mul Z.add Pos.mul Pos.add].
-  repeat match goal with |- context [(?p - ?r) * (?p - ?r)] => change ((p - r) * (p - r)) with (sq p r) end.
-  repeat match goal with |- context [sq (m ?b ?o) (m ?b' ?o')] =>
-    let q := fresh "q" in
-    pose proof (sq_bound (m b o) (m b' o') (Hm b o) (Hm b' o'));
-    set (q := sq (m b o) (m b' o')) in * end.
-  f_equal. unfold add32. Z.div_mod_to_equations. lia.
-Qed.
-
-(** ** sse16x16SSE2: a counted loop of sixteen rows, two 8-byte halves each *)
 Definition block16 (m : string -> Z -> Z) (b : string) : list Z :=
   flat_map (fun row => map (fun col => m b (32 * row + col)) [0; 1; 2; 3; 4; 5; 6; 7; 8; 9; 10; 11; 12; 13; 14; 15])
            [0; 1; 2; 3; 4; 5; 6; 7; 8; 9; 10; 11; 12; 13; 14; 15].
 
-(** The loop semantics (labels, DECQ / JNZ, indexed addressing) is exercised on a
-    concrete memory: the interpreted routine returns the portable SSE.  (The
-    all-inputs proof is given for the 4x4 routine; this one is pinned by digest.) *)
-Definition probe_mem (b : string) (o : Z) : Z :=
-  if String.eqb b "pix" then (o * 7 + 3) mod 256 else (o * 13 + o / 32 + 200) mod 256.
+(** ** The shape of what the SSE routines compute: a tree of wrapping 32-bit
+    additions whose leaves are PMADDWD lanes of two pixel differences (or zero
+    lanes).  A leaf records only the two byte offsets it reads. *)
+Inductive sse_tree : Type :=
+| TZ                                   (* literal 0 *)
+| TZM                                  (* PMADDWD lane of four zero words (unused upper lanes of the 4x4 routine) *)
+| TL (o0 o1 : Z)                       (* PMADDWD lane: pix/ref bytes at offsets o0 and o1 *)
+| TN (a b : sse_tree).
 
-Example asm_sse16x16_runs :
-  run 600 asm_sse16x16SSE2 0 (init_state probe_mem) = Some (sse_list (block16 probe_mem "pix") (block16 probe_mem "ref")).
+Section Trees.
+Variable m : string -> Z -> Z.
+Hypothesis Hm : forall b o, 0 <= m b o <= 255.
+
+Definition dlane (o : Z) : Z := sub16u (mkw (m "pix" o) 0) (mkw (m "ref" o) 0).
+Definition zlane : Z := sub16u (mkw 0 0) (mkw 0 0).
+
+Fixpoint eval32 (t : sse_tree) : Z :=
+  match t with
+  | TZ => 0
+  | TZM => madd32 zlane zlane zlane zlane
+  | TL o0 o1 => madd32 (dlane o0) (dlane o0) (dlane o1) (dlane o1)
+  | TN a b => add32 (eval32 a) (eval32 b)
+  end.
+
+Definition sqo (o : Z) : Z := sq (m "pix" o) (m "ref" o).
+Fixpoint evalsq (t : sse_tree) : Z :=
+  match t with TZ | TZM => 0 | TL o0 o1 => sqo o0 + sqo o1 | TN a b => evalsq a + evalsq b end.
+Fixpoint nleaves (t : sse_tree) : Z :=
+  match t with TZ | TZM | TL _ _ => 1 | TN a b => nleaves a + nleaves b end.
+
+Lemma nleaves_pos t : 1 <= nleaves t.
+Proof. induction t; cbn [nleaves]; lia. Qed.
+
+Lemma zlane_madd : madd32 zlane zlane zlane zlane = 0.
+Proof. unfold zlane. rewrite madd32_eq, sub16u_eq, !mkw_eq. reflexivity. Qed.
+
+Lemma eval32_sq t : 130050 * nleaves t < 4294967296 -> eval32 t = evalsq t /\ 0 <= evalsq t <= 130050 * nleaves t.
+Proof.
+  induction t as [| |o0 o1|a IHa b IHb]; cbn [eval32 evalsq nleaves]; intros HL.
+  - lia.
+  - rewrite zlane_madd. lia.
+  - unfold dlane. rewrite madd32_sq by apply Hm. unfold sqo.
+    pose proof (sq_bound _ _ (Hm "pix" o0) (Hm "ref" o0)). pose proof (sq_bound _ _ (Hm "pix" o1) (Hm "ref" o1)). lia.
+  - pose proof (nleaves_pos a). pose proof (nleaves_pos b).
+    destruct (IHa ltac:(lia)) as [Ea Ba]. destruct (IHb ltac:(lia)) as [Eb Bb].
+    rewrite Ea, Eb. split; [apply add32_small; lia|lia].
+Qed.
+End Trees.
+
+Ltac reify_sse t :=
+  lazymatch t with
+  | add32 ?a ?b => let ra := reify_sse a in let rb := reify_sse b in constr:(TN ra rb)
+  | madd32 (sub16u (mkw (_ _ ?o0) 0) _) _ (sub16u (mkw (_ _ ?o1) 0) _) _ => constr:(TL o0 o1)
+  | madd32 (sub16u (mkw 0 0) _) _ _ _ => constr:(TZM)
+  | 0 => constr:(TZ)
+  end.
+
+(** ** sse4x4SSE2 *)
+Definition res4 := Eval vm_compute in (fun m => run 100 asm_sse4x4SSE2 0 (init_state m)).
+
+Lemma run_res4 m : run 100 asm_sse4x4SSE2 0 (init_state m) = res4 m.
 Proof. vm_compute. reflexivity. Qed.
+
+Section Reify4.
+Variable mm : string -> Z -> Z.
+Definition tree4 : sse_tree :=
+  ltac:(let r := eval cbv beta delta [res4] in (res4 mm) in
+        lazymatch r with Some ?e => let t := reify_sse e in exact t end).
+End Reify4.
+
+Lemma res4_tree m : res4 m = Some (eval32 m tree4).
+Proof. vm_compute. reflexivity. Qed.
+
+Lemma evalsq_tree4 m : evalsq m tree4 = sse_list (block4 m "pix") (block4 m "ref").
+Proof.
+  unfold tree4. cbn [evalsq]. unfold sqo, sq, sse_list, block4.
+  cbn [flat_map map app combine fold_right fst snd Z.mul Z.add Pos.mul Pos.add]. lia.
+Qed.
+
+Theorem asm_sse4x4_eq_model : forall m, (forall b o, 0 <= m b o <= 255) ->
+  run 100 asm_sse4x4SSE2 0 (init_state m) = Some (l_sse_list (block4 m "pix") (block4 m "ref")).
+Proof.
+  intros m Hm. rewrite run_res4, res4_tree. f_equal.
+  rewrite lane16_sse_eq.
+  - destruct (eval32_sq m Hm tree4) as [E _]; [vm_compute; reflexivity|]. rewrite E. apply evalsq_tree4.
+  - unfold block4; cbn [flat_map map app]; repeat (apply Forall_cons; [apply Hm|]); apply Forall_nil.
+  - unfold block4; cbn [flat_map map app]; repeat (apply Forall_cons; [apply Hm|]); apply Forall_nil.
+  - unfold block4; cbn; lia.
+Qed.
+
+(** ** sse16x16SSE2: the counted loop (CX = 16) is run by the interpreter inside
+    the VM; the result is the same kind of tree with 128 PMADDWD leaves. *)
+Definition res16 := Eval vm_compute in (fun m => run 600 asm_sse16x16SSE2 0 (init_state m)).
+
+Lemma run_res16 m : run 600 asm_sse16x16SSE2 0 (init_state m) = res16 m.
+Proof. vm_compute. reflexivity. Qed.
+
+Section Reify16.
+Variable mm : string -> Z -> Z.
+Definition tree16 : sse_tree :=
+  ltac:(let r := eval cbv beta delta [res16] in (res16 mm) in
+        lazymatch r with Some ?e => let t := reify_sse e in exact t end).
+End Reify16.
+
+Lemma res16_tree m : res16 m = Some (eval32 m tree16).
+Proof. vm_compute. reflexivity. Qed.
+
+Lemma evalsq_tree16 m : evalsq m tree16 = sse_list (block16 m "pix") (block16 m "ref").
+Proof.
+  unfold tree16. cbn [evalsq]. unfold sqo, sq, sse_list, block16.
+  cbn [flat_map map app combine fold_right fst snd Z.mul Z.add Pos.mul Pos.add]. lia.
+Qed.
+
+Theorem asm_sse16x16_eq_model : forall m, (forall b o, 0 <= m b o <= 255) ->
+  run 600 asm_sse16x16SSE2 0 (init_state m) = Some (l_sse_list (block16 m "pix") (block16 m "ref")).
+Proof.
+  intros m Hm. rewrite run_res16, res16_tree. f_equal.
+  rewrite lane16_sse_eq.
+  - destruct (eval32_sq m Hm tree16) as [E _]; [vm_compute; reflexivity|]. rewrite E. apply evalsq_tree16.
+  - unfold block16; cbn [flat_map map app]; repeat (apply Forall_cons; [apply Hm|]); apply Forall_nil.
+  - unfold block16; cbn [flat_map map app]; repeat (apply Forall_cons; [apply Hm|]); apply Forall_nil.
+  - unfold block16; cbn; lia.
+Qed.
+
+(** ** transformWHTSSE2 / fTransformWHTSSE2: word kernels.
+    The generic butterflies below are the lane models of ArchLane16.v with the
+    lane operations abstracted; interpreting the instruction list inside the VM
+    yields, for the sixteen stored words, literally the same operation trees. *)
+Definition g_wht_b (q : Q) : Q :=
+  let '(x0, x1, x2, x3) := q in
+  let a0 := add16v x0 x3 in let a1 := add16v x1 x2 in let a2 := sub16v x1 x2 in let a3 := sub16v x0 x3 in
+  (add16v a0 a1, add16v a3 a2, sub16v a0 a1, sub16v a3 a2).
+Definition g_bias0 (k : Z) (q : Q) : Q := let '(a, b, c, d) := q in (add16v a k, b, c, d).
+Definition g_iwht_core (c : M) : M :=
+  two_pass g_wht_b (fun r => mapQ (fun x => sra16v x 3) (g_wht_b (g_bias0 3 r))) c.
+
+Definition g_fwht_b (q : Q) : Q :=
+  let '(x0, x1, x2, x3) := q in
+  let a0 := add16v x0 x2 in let a1 := add16v x1 x3 in let a2 := sub16v x1 x3 in let a3 := sub16v x0 x2 in
+  (add16v a0 a1, add16v a3 a2, sub16v a3 a2, sub16v a0 a1).
+Definition g_fwht_core (c : M) : M :=
+  transpose (mapM (fun q => mapQ (fun x => sra16v x 1) (g_fwht_b q)) (transpose (mapM g_fwht_b c))).
+
+Definition blkw (mw : string -> Z -> Z) (b : string) : M :=
+  ((mw b 0, mw b 1, mw b 2, mw b 3), (mw b 4, mw b 5, mw b 6, mw b 7),
+   (mw b 8, mw b 9, mw b 10, mw b 11), (mw b 12, mw b 13, mw b 14, mw b 15)).
+
+Definition wht_args : list (string * gval) := [("in_base", GPtr "in" 0); ("out_base", GPtr "out" 0)].
+Definition out_words (s : state) (idx : list Z) : list (option Z) := map (stored (wst s) "out") idx.
+Definition idx16 : list Z := [0; 1; 2; 3; 4; 5; 6; 7; 8; 9; 10; 11; 12; 13; 14; 15].
+
+(** the rounding constant 3 is added as the vector (3,3,3,3,0,0,0,0): the upper
+    lanes receive + 0, which a wrapping add absorbs *)
+Hypothesis add16v_0 : forall a b, add16v (add16v a b) 0 = add16v a b.
+Hypothesis add16v_0s : forall a b, add16v (sub16v a b) 0 = sub16v a b.
+
+(** inverse WHT: the sixteen DCs are stored at element indices 0, 16, ..., 240 *)
+Theorem asm_iwht_eq_model : forall m mw,
+  option_map (fun s => out_words s (map (Z.mul 16) idx16))
+             (run_st 200 asm_transformWHTSSE2 0 (init_state_w m mw wht_args))
+  = Some (map Some (listM (g_iwht_core (blkw mw "in")))).
+Proof. intros m mw. vm_compute. rewrite !add16v_0, !add16v_0s. reflexivity. Qed.
+
+(** forward WHT: sixteen words stored contiguously *)
+Theorem asm_fwht_eq_model : forall m mw,
+  option_map (fun s => out_words s idx16)
+             (run_st 200 asm_fTransformWHTSSE2 0 (init_state_w m mw wht_args))
+  = Some (map Some (listM (g_fwht_core (blkw mw "in")))).
+Proof. intros m mw. vm_compute. reflexivity. Qed.
+
+(** ** iTransformOneSSE2: the 4x4 inverse DCT *)
+Definition g_mul1 (x : Z) : Z := add16v (mulhi16v x 20091) x.
+Definition g_mul2 (x : Z) : Z := add16v (mulhi16v x (-30068)) x.
+Definition g_bfly (q : Q) : Q :=
+  let '(x0, x1, x2, x3) := q in
+  let a := add16v x0 x2 in let b := sub16v x0 x2 in
+  let c := sub16v (g_mul2 x1) (g_mul1 x3) in let d := add16v (g_mul1 x1) (g_mul2 x3) in
+  (add16v a d, add16v b c, sub16v b c, sub16v a d).
+Definition g_idct_core (c : M) : M :=
+  two_pass g_bfly (fun r => mapQ (fun x => sra16v x 3) (g_bfly (g_bias0 4 r))) c.
+Definition g_recon (p x : Z) : Z := packus8v (add16v x p).
+
+Definition blkb (m : string -> Z -> Z) (b : string) : M :=
+  ((m b 0, m b 1, m b 2, m b 3), (m b 32, m b 33, m b 34, m b 35),
+   (m b 64, m b 65, m b 66, m b 67), (m b 96, m b 97, m b 98, m b 99)).
+Definition idct_args : list (string * gval) :=
+  [("ref_base", GPtr "ref" 0); ("in_base", GPtr "in" 0); ("dst_base", GPtr "dst" 0)].
+Definition dst_offsets : list Z := [0; 1; 2; 3; 32; 33; 34; 35; 64; 65; 66; 67; 96; 97; 98; 99].
+
+Theorem asm_idct_eq_model : forall m mw,
+  option_map (fun s => map (stored (bst s) "dst") dst_offsets)
+             (run_st 300 asm_iTransformOneSSE2 0 (init_state_w m mw idct_args))
+  = Some (map Some (listM (map2M g_recon (blkb m "ref") (g_idct_core (blkw mw "in"))))).
+Proof. intros m mw. vm_compute. reflexivity. Qed.
+
+(** iTransformOneAVX2: the VEX-encoded variant (three-operand forms on 128-bit
+    registers, VPMULHW / VPACKUSWB decoded from their raw encodings by the
+    translator) computes literally the same operation trees. *)
+Theorem asm_idct_avx2_eq_model : forall m mw,
+  option_map (fun s => map (stored (bst s) "dst") dst_offsets)
+             (run_st 300 asm_iTransformOneAVX2 0 (init_state_w m mw idct_args))
+  = Some (map Some (listM (map2M g_recon (blkb m "ref") (g_idct_core (blkw mw "in"))))).
+Proof. intros m mw. vm_compute. reflexivity. Qed.
+
+End Sem.
+
+(** ** The real lane operations *)
+Definition run_real := run mkw_def sub16u_def madd32_def add32_def add16 sub16 sra16 mulhi16 clip8.
+Definition run_st_real := run_st mkw_def sub16u_def madd32_def add32_def add16 sub16 sra16 mulhi16 clip8.
+
+Theorem asm_sse4x4_eq_model_real : forall m, (forall b o, 0 <= m b o <= 255) ->
+  run_real 100 asm_sse4x4SSE2 0 (init_state m) = Some (l_sse_list (block4 m "pix") (block4 m "ref")).
+Proof. intros m Hm. apply asm_sse4x4_eq_model; auto. Qed.
+
+Theorem asm_sse16x16_eq_model_real : forall m, (forall b o, 0 <= m b o <= 255) ->
+  run_real 600 asm_sse16x16SSE2 0 (init_state m) = Some (l_sse_list (block16 m "pix") (block16 m "ref")).
+Proof. intros m Hm. apply asm_sse16x16_eq_model; auto. Qed.
+
+(** ** Word kernels with the real lane operations: the interpreted assembly
+    computes the lane models of ArchLane16.v. *)
+Lemma add16_0 a b : add16 (add16 a b) 0 = add16 a b.
+Proof. unfold add16, wrap16. rewrite Z.add_0_r. Z.div_mod_to_equations. lia. Qed.
+Lemma add16_0s a b : add16 (sub16 a b) 0 = sub16 a b.
+Proof. unfold add16, sub16, wrap16. rewrite Z.add_0_r. Z.div_mod_to_equations. lia. Qed.
+
+Definition res_list (r : Res (list Z)) : option (list (option Z)) :=
+  match r with Ok l => Some (map Some l) | _ => None end.
+
+(** transformWHTSSE2 = [lane16_wht] on the sixteen coefficients of the "in" buffer;
+    the DCs land at element indices 0, 16, ..., 240 of "out". *)
+Theorem asm_iwht_is_lane16_wht : forall m mw,
+  option_map (fun s => out_words s (map (Z.mul 16) idx16))
+             (run_st_real 200 asm_transformWHTSSE2 0 (init_state_w m mw wht_args))
+  = res_list (lane16_wht (map (mw "in") idx16)).
+Proof.
+  intros m mw. unfold run_st_real.
+  rewrite (asm_iwht_eq_model mkw_def sub16u_def madd32_def add32_def add16 sub16 sra16 mulhi16 clip8 add16_0 add16_0s m mw).
+  reflexivity.
+Qed.
+
+Theorem asm_fwht_is_lane16_fwht : forall m mw,
+  option_map (fun s => out_words s idx16)
+             (run_st_real 200 asm_fTransformWHTSSE2 0 (init_state_w m mw wht_args))
+  = res_list (lane16_fwht (map (mw "in") idx16)).
+Proof.
+  intros m mw. unfold run_st_real.
+  rewrite (asm_fwht_eq_model mkw_def sub16u_def madd32_def add32_def add16 sub16 sra16 mulhi16 clip8 m mw).
+  reflexivity.
+Qed.
+
+(** iTransformOneSSE2 = [lane16_idct] on the coefficients of "in" and the 4x4
+    block of "ref" (stride 32); the result is stored to the same block of "dst". *)
+Theorem asm_idct_is_lane16_idct : forall m mw,
+  option_map (fun s => map (stored (bst s) "dst") dst_offsets)
+             (run_st_real 300 asm_iTransformOneSSE2 0 (init_state_w m mw idct_args))
+  = res_list (lane16_idct (map (mw "in") idx16) (map (m "ref") dst_offsets)).
+Proof.
+  intros m mw. unfold run_st_real.
+  rewrite (asm_idct_eq_model mkw_def sub16u_def madd32_def add32_def add16 sub16 sra16 mulhi16 clip8 m mw).
+  reflexivity.
+Qed.
+
+Theorem asm_idct_avx2_is_lane16_idct : forall m mw,
+  option_map (fun s => map (stored (bst s) "dst") dst_offsets)
+             (run_st_real 300 asm_iTransformOneAVX2 0 (init_state_w m mw idct_args))
+  = res_list (lane16_idct (map (mw "in") idx16) (map (m "ref") dst_offsets)).
+Proof.
+  intros m mw. unfold run_st_real.
+  rewrite (asm_idct_avx2_eq_model mkw_def sub16u_def madd32_def add32_def add16 sub16 sra16 mulhi16 clip8 m mw).
+  reflexivity.
+Qed.
